@@ -129,12 +129,12 @@ func c18Exec(run *ev.Run, c ev.Case) {
 	prevKind := "start"
 	var trace []string
 	for step := 0; step < h.Steps; step++ {
-		kinds := []string{"dial-ok", "dial-bad", "open-ok", "open-wrongpw", "open-nosuite", "open-garbage", "open-unimplemented", "sl-ok", "sl-busy-ok", "sl-lost-ok", "sl-cc", "sl-ctx-done", "sl-any", "sl-any"}
+		kinds := []string{"dial-ok", "dial-bad", "open-ok", "open-wrongpw", "open-nosuite", "open-garbage", "open-unimplemented", "sl-ok", "sl-busy-ok", "sl-lost-ok", "sl-cc", "sl-ctx-done", "sl-any", "sl-any", "sl-stray-ok"}
 		if len(conns) > 0 {
 			kinds = append(kinds, "conn-close")
 		}
 		if sess != nil {
-			kinds = []string{"cmd-ok", "cmd-ok", "cmd-cc", "cmd-busy-ok", "cmd-garbage-ok", "cmd-trunc", "cmd-lost", "cmd-serfail", "cmd-nobody-ok", "close-ok", "close-fail", "sl-ok", "dial-ok", "dial-bad", "cmd-ctx-done", "sl-cc", "cmd-any", "cmd-any", "cmd-any", "sl-any"}
+			kinds = []string{"cmd-ok", "cmd-ok", "cmd-cc", "cmd-busy-ok", "cmd-garbage-ok", "cmd-trunc", "cmd-lost", "cmd-serfail", "cmd-nobody-ok", "close-ok", "close-fail", "sl-ok", "dial-ok", "dial-bad", "cmd-ctx-done", "sl-cc", "cmd-any", "cmd-any", "cmd-any", "sl-any", "sl-stray-ok", "cmd-stray-ok"}
 		}
 		kind := kinds[r.Intn(len(kinds))]
 		if r.Intn(70) == 0 {
@@ -300,6 +300,11 @@ func c18Exec(run *ev.Run, c ev.Case) {
 				}
 			case "sl-ok":
 				command(se.ST, &ipmi.GetChannelAuthenticationCapabilitiesCmd{}, nil, authcaps, 8)
+			case "sl-stray-ok":
+				// replies to other commands (late duplicates) arrive first; they are not responses to this call
+				command(se.ST, &ipmi.GetSystemGUIDCmd{}, [][]string{{"stray:othercmd"}, {"stray:othercmd", "stray:othercmd"}, {"busy", "stray:othercmd"}, {"garbage:reflect"}}[r.Intn(4)], make([]byte, 16), 16)
+			case "cmd-stray-ok":
+				command(sess, &ipmi.GetDeviceIDCmd{}, [][]string{{"stray:othercmd"}, {"stray:othercmd", "busy"}, {"unauth"}, {"othersid"}, {"garbage:reflect"}}[r.Intn(5)], devid, 11)
 			case "sl-busy-ok":
 				command(se.ST, &ipmi.GetChannelAuthenticationCapabilitiesCmd{}, []string{"busy", "tmo"}[:1+r.Intn(2)], authcaps, 8)
 			case "sl-lost-ok":
